@@ -15,6 +15,12 @@ theorem C11_concurrent_conservation  :
     ((c.shared.entries.map (·.2)) ++ StackConc.poppedVals c.lin).Perm (StackConc.pushedVals c.lin) ∧
     (StackConc.pushedIds c.lin).Nodup ∧ (c.shared.entries.map (·.1)).Nodup := Proofs.C11_concurrent_conservation
 
+/-- the heap order on ids survives every interleaving: in every reachable state of the concurrent stack the entries form a heap for the id order, and whatever a Pop removes carries the smallest id present — so Pops that run after concurrent Pushes have completed return the values in the order of the ids Push returned. -/
+theorem C11_concurrent_heap_order  :
+    ∀ (c : CSt (Stack Nat) StackConc.Op StackConc.Ret Nat), CReach StackConc.impl (GenericStack.new : Stack Nat) c →
+    TV.GoHeap.IsHeap lessId c.shared.entries ∧
+    ∀ e rest, TV.GoHeap.pop lessId c.shared.entries = some (e, rest) → ∀ x ∈ c.shared.entries, e.1 ≤ x.1 := Proofs.C11_concurrent_heap_order
+
 /-! witness: the pinned Pop (emptiness test outside the lock) lets two Pops on a one-element stack both pass the test; the second
     one indexes an empty slice. -/
 theorem pinned_C11_two_pops_panic :
